@@ -110,7 +110,7 @@ static const int NCONT = 100;
 
 struct Counters {
   uint64_t states = 0, transitions = 0, restores = 0, outputs_compared = 0, gsl_compared = 0,
-           zeros = 0, refill_boundaries = 0, injected = 0;
+           zeros = 0, refill_boundaries = 0, injected = 0, reseed_cases = 0, reseed_borrow_set = 0;
 };
 
 /// expected restart image of the generator after p outputs (reference model of the state)
@@ -397,6 +397,95 @@ static void injected_states(Result &R, Counters &C, bool thorough) {
   }
 }
 
+// ---------------------------------------------------------------------------
+// re-seeding histories: set_seed(b) on a generator that has already been used
+// (FractalDensityMask re-seeds used generators) must give exactly the fresh
+// generator of seed b, whatever state (borrow, indices) the old stream left
+// ---------------------------------------------------------------------------
+static const int NRESEED = 100;
+/// via 0: generator constructed with seed a; via 1: generator restored from the restart image
+/// dumped after p draws of seed a
+static void check_reseed(int64_t a, int64_t b, int p, int via, Result &R, Counters &C, bool verbose) {
+  const std::string rp = fmt("{\"reseed_a\": %" PRId64 ", \"reseed_b\": %" PRId64 ", \"position\": %d, \"via\": %d}",
+                             a, b, p, via);
+  RandomGenerator g((int_fast32_t)a);
+  for (int t = 0; t < p; ++t)
+    g.get_uniform_random_double();
+  const std::string before = save(g);
+  double carry_before = 0.;
+  if (before.size() >= 104)
+    memcpy(&carry_before, before.data() + 96, 8);
+  RandomGenerator h = via ? restore(before) : g;
+  h.set_seed((int_fast32_t)b);
+  ++C.reseed_cases;
+  ++C.states;
+  ++C.transitions; // the set_seed transition
+  ++R.evaluations;
+  if (carry_before != 0.)
+    ++C.reseed_borrow_set;
+  R.distinct.insert(fnv1a(before + fmt("|reseed|%" PRId64, b)));
+  const char *vname = via ? "restored-generator" : "constructed-generator";
+  const char *bname = carry_before != 0. ? "borrow-set-before-reseed" : "borrow-clear-before-reseed";
+  // (ii) state right after set_seed == fresh generator(b) == reference seeding
+  RefRanlux ref(b);
+  const std::string after = save(h), fresh = save(RandomGenerator((int_fast32_t)b)),
+                    want = expected_image(ref, 0);
+  if (verbose)
+    printf("  seed %" PRId64 ", %d draws (borrow %s), %s, set_seed(%" PRId64 "): image %s fresh image, %s reference\n",
+           a, p, carry_before != 0. ? "set" : "clear", vname, b, after == fresh ? "==" : "!=",
+           after == want ? "==" : "!=");
+  if (after != fresh || after != want) {
+    const std::string &cmp = after != want ? want : fresh;
+    size_t k = 0;
+    while (k < after.size() && k < cmp.size() && after[k] == cmp[k])
+      ++k;
+    R.violation(fmt("C13:reseed:state:%s:%s:%s", after.size() != cmp.size() ? "length" : image_field(k), vname, bname),
+                fmt("generator(seed %" PRId64 ") after %d draws, %s, then set_seed(%" PRId64 "): restart image differs "
+                    "from %s at byte %zu (field %s)",
+                    a, p, vname, b, after != want ? "the reference state of a fresh generator" : "a fresh generator's",
+                    k, after.size() != cmp.size() ? "length" : image_field(k)),
+                rp);
+  }
+  // (i) stream after set_seed == reference stream of seed b (== fresh generator, checked elsewhere)
+  RandomGenerator f((int_fast32_t)b);
+  for (int t = 0; t < NRESEED; ++t) {
+    const double u = h.get_uniform_random_double(), uf = f.get_uniform_random_double();
+    const double wd = (double)ref.out(t) / TWO48;
+    ++C.transitions;
+    if (bits(u) != bits(wd) || bits(u) != bits(uf)) {
+      R.violation(fmt("C13:reseed:stream:%s:%s:first-diff-in-block-%s", vname, bname,
+                      t < 12 ? "0" : (t < 24 ? "1" : "later")),
+                  fmt("generator(seed %" PRId64 ") after %d draws, %s, then set_seed(%" PRId64 "): output %d is %a, "
+                      "ranlxd2(%" PRId64 ") gives %a, a fresh generator %a",
+                      a, p, vname, b, t, u, b, wd, uf),
+                  rp);
+      break;
+    }
+  }
+}
+static void reseed_walk(Result &R, Counters &C, bool thorough) {
+  std::vector< int64_t > as;
+  const int na = thorough ? 32 : 16;
+  for (int i = 0; i < na - 4; ++i)
+    as.push_back(i);
+  for (int64_t x : {42ll, 2147483647ll, -1ll, 1ll << 30})
+    as.push_back(x);
+  const int64_t bs[8] = {0, 1, 2, 42, 12345, 1ll << 30, 2147483647ll, -1};
+  for (int64_t a : as) {
+    if (R.out_of_time()) {
+      R.hit_deadline(fmt("re-seeding walk: stopped at seed a=%" PRId64, a));
+      return;
+    }
+    for (int64_t b : bs)
+      for (int p = 0; p <= PMAX; ++p)
+        for (int via = 0; via < 2; ++via)
+          check_reseed(a, b, p, via, R, C, false);
+  }
+  if (C.reseed_borrow_set == 0)
+    R.violation("C13:harness:reseed-walk-never-sees-borrow",
+                "no re-seeding case started from a state with the borrow set; the walk is vacuous for stale-borrow defects");
+}
+
 int main(int argc, char **argv) {
   Args A = parse_args(argc, argv);
   Result R(A);
@@ -462,6 +551,16 @@ int main(int argc, char **argv) {
   if (!A.replay.empty()) {
     const std::string txt = read_file(A.replay);
     const std::string rp = replay_field(txt, "replay");
+    if (!replay_field(rp, "reseed_a").empty()) {
+      const int64_t a = atoll(replay_field(rp, "reseed_a").c_str()), b = atoll(replay_field(rp, "reseed_b").c_str());
+      const int p = atoi(replay_field(rp, "position").c_str()), via = atoi(replay_field(rp, "via").c_str());
+      printf("replay: re-seeding case a=%" PRId64 " b=%" PRId64 " position %d via %d\n", a, b, p, via);
+      check_reseed(a, b, p, via, R, C, true);
+      for (auto &v : R.violations)
+        printf("  %s :: %s\n", v.key.c_str(), v.detail.c_str());
+      remove_fast_tmpdir(tmpd);
+      return R.finish(A);
+    }
     const std::string inj = replay_field(rp, "injected_x");
     if (!inj.empty()) {
       uint64_t x[12] = {0};
@@ -521,6 +620,9 @@ int main(int argc, char **argv) {
                    sc.seed, sc.cls, RefRanlux(sc.seed).out(0), RefRanlux(sc.seed).out(1),
                    RefRanlux(sc.seed).out(2), PMAX + 1));
   }
+  reseed_walk(R, C, A.thorough());
+  R.set("reseed_cases", (double)C.reseed_cases);
+  R.set("reseed_cases_with_borrow_set", (double)C.reseed_borrow_set);
   injected_states(R, C, A.thorough());
   R.set("injected_boundary_states", (double)C.injected);
   // thorough: a larger contiguous seed range, stream comparison only (no save/restore walk)
